@@ -326,12 +326,41 @@ class Driver:
         ents = self.adj_list(Ref(self.nodes[i]), lst)
         return OR(AND([EQ(k, other_key), EQ(v, val)]) for k, v, _ in ents)
 
+    def _loop_collect(self, spec, noderef, t):
+        """`node.iter_x().map(|e| { ..script at the k-th element..; e }).collect::<Vec<_>>()`: std's from_iter consults
+        size_hint after the first element and whenever its buffer is full"""
+        ex = self.ex
+        lst = {'collect_out': 'out', 'collect_in': 'in', 'collect_adj': 'adj'}[spec['kind']]
+        it = self.node_call({'out': 'iter_out', 'in': 'iter_in', 'adj': 'iter'}[lst], [noderef])
+        yields, sobs, n = [], [None], [0]
+
+        def fn(ex_, e):
+            tr = self.edge_triple(e)
+            if lst == 'in':
+                ok = self.exists_now('in', tr[1], tr[0], tr[2])
+            else:
+                ok = self.exists_now(lst, tr[0], tr[1], tr[2])
+            yields.append(tr + [ok])
+            if n[0] == spec['at']:
+                sobs[0] = self.run_script(spec['script'])
+            n[0] += 1
+            if n[0] > 24:
+                raise Budget('edge loop does not end')
+            return e
+        out = models.std_collect(ex, Agg('MapIter', [it, PyFn(fn)]))
+        for e in out:
+            ex.drop(e)
+        self.drop_temps(t)
+        return {'yields': yields, 'script': sobs[0]}
+
     def op_loop(self, spec):
         """a user loop over a node's edges that runs a script of operations before its `at`-th next()"""
         ex = self.ex
         t = []
         noderef = self.handle(spec['node'], t)
         kind = spec['kind']
+        if kind.startswith('collect_'):
+            return self._loop_collect(spec, noderef, t)
         if kind == 'into_iter':
             it = ex.call(f"<&'a {self.NODE}<K, N, E> as IntoIterator>::into_iter", [noderef])
             lst = 'out' if self.directed else 'adj'
@@ -389,14 +418,24 @@ class Driver:
             s = ex.call(f"{ap}::{'filter' if spec['method'] == 'filter' else 'for_each'}", [s, clo])
         sc = Cell(s)
         mode = spec['mode']
-        r = ex.call(f"{ap}::{ {'search': 'search', 'path': 'search_path', 'cycle': 'search_cycle'}[mode] }", [Ref(sc)])
-        if r.variant == 0:
-            res = None
-        elif mode == 'search':
-            c = Cell(r.f[0])
-            res = self.key_of(Ref(c))
-        else:
-            res = self.path_edges(r.f[0])
+        meth = {'search': 'search', 'path': 'search_path', 'cycle': 'search_cycle'}[mode]
+
+        def result_of(r):
+            if r.variant == 0:
+                return None
+            if mode == 'search':
+                return self.key_of(Ref(Cell(r.f[0])))
+            return self.path_edges(r.f[0])
+        r = ex.call(f'{ap}::{meth}', [Ref(sc)])
+        res = result_of(r)
+        extra = {}
+        if spec.get('repeat'):
+            # the same search object is run a second time (search_path and pfs search take &mut self)
+            n1 = len(log)
+            r2 = ex.call(f'{ap}::{meth}', [Ref(sc)])
+            extra = {'result2': result_of(r2), 'calls2': log[n1:]}
+            del log[n1:]
+            ex.drop(r2)
         keep = spec.get('keep')
         if keep:
             self.kept[keep] = Cell(r)
@@ -404,7 +443,9 @@ class Driver:
             ex.drop(r)
         ex.drop(sc.v)
         self.drop_temps(t)
-        return self._with_script({'result': res, 'calls': log}, spec)
+        out = {'result': res, 'calls': log}
+        out.update(extra)
+        return self._with_script(out, spec)
 
     def op_order(self, spec):
         ex = self.ex
